@@ -508,4 +508,77 @@ def RVal.hasShape : RVal → Shape → Bool
   | .list vs, .list t => vs.attach.all fun ⟨v, _⟩ => v.hasShape t
   | _, _ => false
 
+
+/-! ## Placement: where the tag bytes and leaves of a value lie in memory -/
+
+/-- what occupies an offset: a discriminant byte, a leaf value, or a list handle (the elements of a
+    list live in the list's own buffer, at a stride both sides take from the element layout) -/
+inductive Cell
+  | tag (d : Nat)
+  | leaf (n : Nat)
+  | handle
+  deriving DecidableEq, Repr, Inhabited
+
+/-- one enum level: the tag at `b`, the payload (if the variant at discriminant `d` has one) placed
+    by `sub i` (the placer of type parameter `i`) at `b + off i` -/
+def placeTagged (tbl : List (VName × List Nat)) (d : Nat) (p : Option TVal) (b : Nat)
+    (sub : Nat → Option (TVal → Nat → Option (List (Nat × Cell)))) (off : Nat → Option Nat) :
+    Option (List (Nat × Cell)) :=
+  match tbl[d]?, p with
+  | some (_, []), none => some [(b, .tag d)]
+  | some (_, [i]), some x =>
+    match sub i, off i with
+    | some f, some o => (f x (b + o)).map fun cells => (b, .tag d) :: cells
+    | _, _ => none
+  | _, _ => none
+
+/-- As rustc lays the transformed type out (`#[repr(u8)]`: tag at 0, payload at
+    `roundUp 1 align`), in the Rust declaration order of the mirror enums. -/
+def rustPlace (h : HostLayouts) : BTy → TVal → Nat → Option (List (Nat × Cell))
+  | .prim _, .leaf n, b => some [(b, .leaf n)]
+  | .val _, .leaf n, b => some [(b, .leaf n)]
+  | .unit, .unit, _ => some []
+  | .list _, .list _, b => some [(b, .handle)]
+  | .option t, .tagged d p, b =>
+    placeTagged rotoOptionVariants d p b
+      (fun i => if i = 0 then some (rustPlace h t) else none)
+      (fun i => if i = 0 then some (payloadOffset (rustLayout h t)) else none)
+  | .result t e, .tagged d p, b =>
+    placeTagged rotoResultVariants d p b
+      (fun i => if i = 0 then some (rustPlace h t) else if i = 1 then some (rustPlace h e) else none)
+      (fun i => if i = 0 then some (payloadOffset (rustLayout h t))
+                else if i = 1 then some (payloadOffset (rustLayout h e)) else none)
+  | .verdict t e, .tagged d p, b =>
+    placeTagged verdictVariants d p b
+      (fun i => if i = 0 then some (rustPlace h t) else if i = 1 then some (rustPlace h e) else none)
+      (fun i => if i = 0 then some (payloadOffset (rustLayout h t))
+                else if i = 1 then some (payloadOffset (rustLayout h e)) else none)
+  | _, _, _ => none
+
+/-- the field list of the variant at discriminant `d` of the MIR enum, and the offset of its field 0
+    as `Lowerer::location` computes it -/
+def rotoFieldOffset (h : HostLayouts) (tbl : List (VName × List Nat)) (args : List MTy) (d : Nat) : Option Nat :=
+  ((instVariants .never tbl args)[d]?).bind fun fs => variantFieldOffset h fs 0
+
+/-- As a script addresses the same memory (`SetDiscriminant` / `Discriminant` at offset 0,
+    `VariantField(name, 0)` through `layout_of`), in the `default_types()` order. -/
+def rotoPlace (h : HostLayouts) : BTy → TVal → Nat → Option (List (Nat × Cell))
+  | .prim _, .leaf n, b => some [(b, .leaf n)]
+  | .val _, .leaf n, b => some [(b, .leaf n)]
+  | .unit, .unit, _ => some []
+  | .list _, .list _, b => some [(b, .handle)]
+  | .option t, .tagged d p, b =>
+    placeTagged defaultOption d p b
+      (fun i => if i = 0 then some (rotoPlace h t) else none)
+      (fun _ => rotoFieldOffset h defaultOption [toMTy t] d)
+  | .result t e, .tagged d p, b =>
+    placeTagged defaultResult d p b
+      (fun i => if i = 0 then some (rotoPlace h t) else if i = 1 then some (rotoPlace h e) else none)
+      (fun _ => rotoFieldOffset h defaultResult [toMTy t, toMTy e] d)
+  | .verdict t e, .tagged d p, b =>
+    placeTagged defaultVerdict d p b
+      (fun i => if i = 0 then some (rotoPlace h t) else if i = 1 then some (rotoPlace h e) else none)
+      (fun _ => rotoFieldOffset h defaultVerdict [toMTy t, toMTy e] d)
+  | _, _, _ => none
+
 end RotoV.Boundary
